@@ -20,6 +20,7 @@ func init() {
 			{ID: "C18-R4", Doc: "arguments are checked before the call", Run: c18r4},
 			{ID: "C18-R5", Doc: "arity is established before a column is inspected", Run: c18r5},
 			{ID: "C18-R6", Doc: "admission by Kind vs use by type assertion", Run: c18r6},
+			{ID: "C18-R7", Doc: "CanApply's column loops tile every column index", Run: c18r7},
 		},
 	})
 }
@@ -89,12 +90,23 @@ func c18r1(c *RC) {
 		}
 	}
 	// FuncValue.typecheck is reached from Invocation / applyValue: depth 2
+	done := map[*Func]bool{}
+	for _, fn := range c18constructors(pr) {
+		done[fn] = true
+		for _, l := range fn.Lits {
+			done[l] = true
+		}
+	}
 	if tc := c.MustFn(".(*FuncValue).typecheck"); tc != nil {
 		check(tc, tc.Body, 2, tc.QName())
+		done[tc] = true
 	}
 	if av := c.MustFn(".(*FuncValue).applyValue"); av != nil {
 		check(av, av.Body, 2, av.QName())
+		done[av] = true
 	}
+	// every other function of the package that raises a typecheck panic
+	n += c18depths(c, done)
 	c.Floor("typecheck panics in constructors", n, 20)
 }
 
@@ -138,6 +150,7 @@ func c18r2(c *RC) {
 		names = append(names, k)
 	}
 	sort.Strings(names)
+	helpers := c18assertingHelpers(pr)
 	for _, q := range names {
 		fn := ctors[q]
 		if fn == nil {
@@ -148,9 +161,15 @@ func c18r2(c *RC) {
 		fl := pr.Flow(fn)
 		// which checks are called at all
 		called := map[string]bool{}
+		viaHelper := map[string]bool{}
+		_ = viaHelper
 		for _, k := range callsIn(fn.Body) {
 			if nm, ok := c18checks[fn.Pkg.CalleeName(k)]; ok {
 				called[nm] = true
+			}
+			for _, nm := range helpers[fn.Pkg.CalleeName(k)] {
+				called[nm] = true
+				viaHelper[nm] = true
 			}
 		}
 		for _, r := range req {
@@ -259,6 +278,11 @@ func c18r2(c *RC) {
 								cur.bind[id.Name] = nm
 							}
 						}
+					}
+				}
+				for _, k := range callsIn(nd) {
+					for _, nm := range helpers[fn.Pkg.CalleeName(k)] {
+						cur.passed[nm] = true
 					}
 				}
 				if ret, ok := nd.(*ast.ReturnStmt); ok {
@@ -704,4 +728,56 @@ func c18checkLoop(fn *Func, r string) ast.Stmt {
 		return nil
 	}
 	return loop
+}
+
+
+// c18assertingHelpers: unexported functions of the root package whose body
+// asserts a schema check — a top-level `if` whose condition applies the check
+// and whose body ends in a call that does not return (a typecheck panic) — so
+// that returning from the helper means the check passed.  Function name ->
+// checks asserted.
+func c18assertingHelpers(pr *Prog) map[string][]string {
+	out := map[string][]string{}
+	for _, fn := range pr.FuncsIn("") {
+		if fn.Decl == nil || fn.Body == nil || fn.Decl.Name.IsExported() {
+			continue
+		}
+		for _, st := range fn.Body.List {
+			if _, isRet := st.(*ast.ReturnStmt); isRet {
+				break
+			}
+			ifs, ok := st.(*ast.IfStmt)
+			if !ok || len(ifs.Body.List) == 0 {
+				continue
+			}
+			var names []string
+			for _, part := range []ast.Node{ifs.Init, ifs.Cond} {
+				if part == nil || part == ast.Node((*ast.AssignStmt)(nil)) {
+					continue
+				}
+				ast.Inspect(part, func(m ast.Node) bool {
+					if k, ok := m.(*ast.CallExpr); ok {
+						if nm, ok := c18checks[fn.Pkg.CalleeName(k)]; ok {
+							names = append(names, nm)
+						}
+					}
+					return true
+				})
+			}
+			if len(names) == 0 {
+				continue
+			}
+			last := ifs.Body.List[len(ifs.Body.List)-1]
+			noret := false
+			if es, ok := last.(*ast.ExprStmt); ok {
+				if k, ok := es.X.(*ast.CallExpr); ok && !fn.Pkg.mayReturn(k) {
+					noret = true
+				}
+			}
+			if noret {
+				out[fn.QName()] = append(out[fn.QName()], names...)
+			}
+		}
+	}
+	return out
 }
